@@ -246,5 +246,185 @@ Section ClearProofs.
     destruct I; auto.
   Qed.
 
+  (* ---- the directory after a call, sessions of calls *)
+
+  Lemma kind_of_filter (g : string -> bool) st p :
+    kind_of (List.filter (fun e => g (fst e)) st) p = if g p then kind_of st p else Absent.
+  Proof.
+    induction st as [|[q k] st IH]; cbn.
+    - destruct (g p); reflexivity.
+    - destruct (g q) eqn:G; cbn; destruct (eqb_spec p q) as [->|N].
+      + rewrite G. reflexivity.
+      + apply IH.
+      + rewrite IH, G. reflexivity.
+      + apply IH.
+  Qed.
+
+  Lemma kind_of_after st o p :
+    kind_of (after st o) p = if memb p (deleted o) then Absent else kind_of st p.
+  Proof.
+    destruct o as [acts| |]; cbn; try reflexivity.
+    rewrite (kind_of_filter (fun q => negb (memb q (map fst acts)))).
+    destruct (memb p (map fst acts)); reflexivity.
+  Qed.
+
+  Lemma filter_all_true {A} (f : A -> bool) l : (forall x, f x = true) -> List.filter f l = l.
+  Proof. intros H. induction l as [|x l IH]; cbn; [reflexivity|]. rewrite H, IH. reflexivity. Qed.
+
+  (* a refused (or needless) call leaves the directory exactly as it was *)
+  Lemma no_consent_state_unchanged only skip st :
+    after st (clear csv feat rdata only skip st false) = st.
+  Proof.
+    unfold clear. destruct (nonempty _); cbn; [reflexivity|].
+    apply filter_all_true. reflexivity.
+  Qed.
+
+  Lemma nil_iff_no_member {A} (l : list A) : (forall x, ~ In x l) -> l = [].
+  Proof. destruct l as [|x l]; [reflexivity|]. intros H. exfalso. apply (H x). left; reflexivity. Qed.
+
+  Lemma nonempty_true_iff {A} (l : list A) : nonempty l = true <-> exists x, In x l.
+  Proof.
+    destruct l as [|x l]; cbn; split; try discriminate.
+    - intros [x []].
+    - intros _. exists x. auto.
+    - reflexivity.
+  Qed.
+
+  (* once a selection has been cleared with consent, the same selection finds nothing: no prompt, no
+     refusal, nothing to do - whatever kinds (dangling links included) the entries had *)
+  Lemma cleared_nothing_left only skip st :
+    existing_paths csv feat rdata only skip (after st (clear csv feat rdata only skip st true)) = [].
+  Proof.
+    apply nil_iff_no_member. intros p I.
+    apply existing_paths_In in I. destruct I as [E [C K]].
+    unfold exists_at in E. rewrite kind_of_after in E.
+    destruct (memb p (deleted (clear csv feat rdata only skip st true))) eqn:M; [discriminate E|].
+    apply memb_not_In in M. apply M. rewrite deleted_clear. apply existing_paths_In.
+    split; [exact E|]. split; assumption.
+  Qed.
+
+  Lemma cleared_then_quiet only skip st c :
+    clear csv feat rdata only skip (after st (clear csv feat rdata only skip st true)) c = Done [] /\
+    prompts csv feat rdata only skip (after st (clear csv feat rdata only skip st true)) false = false.
+  Proof. unfold clear, prompts. rewrite cleared_nothing_left. split; reflexivity. Qed.
+
+  (* the user is asked exactly when the call is not forced and something would be deleted *)
+  Lemma prompts_iff only skip st force :
+    prompts csv feat rdata only skip st force = true <->
+    force = false /\ exists p, In p (deleted (clear csv feat rdata only skip st true)).
+  Proof.
+    unfold prompts. rewrite deleted_clear, andb_true_iff, negb_true_iff, nonempty_true_iff. tauto.
+  Qed.
+
+  (* the question names exactly what a yes deletes *)
+  Lemma announced_is_deleted only skip st :
+    announced csv feat rdata only skip st = deleted (clear csv feat rdata only skip st true).
+  Proof. symmetry. apply deleted_clear. Qed.
+
+  Definition all_paths : list string := map tpath (csv ++ feat) ++ [rdata].
+
+  Lemma deleted_in_tables only skip st c p :
+    In p (deleted (clear csv feat rdata only skip st c)) -> In p all_paths.
+  Proof.
+    destruct c; [|rewrite no_consent_no_change; intros []].
+    rewrite deleted_clear, existing_paths_In, cand_paths_In. intros [_ [[->|[e [I [<- _]]]] _]]; unfold all_paths.
+    - apply in_app_iff; right; left; reflexivity.
+    - apply in_app_iff; left. apply in_map; assumption.
+  Qed.
+
+  (* one call: a path outside the tables keeps its kind; any path keeps its kind or disappears *)
+  Lemma call_foreign st0 cur k p :
+    ~ In p all_paths ->
+    kind_of (after (call_state st0 cur k) (run_call csv feat rdata st0 cur k)) p = kind_of (call_state st0 cur k) p.
+  Proof.
+    intros NP. rewrite kind_of_after. unfold run_call.
+    destruct (memb p (deleted _)) eqn:M; [|reflexivity].
+    apply memb_In, deleted_in_tables in M. contradiction.
+  Qed.
+
+  Lemma session_foreign ks : forall st0 cur p,
+    ~ In p all_paths -> kind_of cur p = kind_of st0 p ->
+    kind_of (snd (session csv feat rdata st0 cur ks)) p = kind_of st0 p.
+  Proof.
+    induction ks as [|k ks IH]; intros st0 cur p NP E; cbn; [exact E|].
+    apply IH; [exact NP|]. rewrite call_foreign by exact NP.
+    unfold call_state. destruct (k_fresh k); [reflexivity | exact E].
+  Qed.
+
+  Lemma session_only_shrinks ks : forall st0 cur p,
+    (kind_of cur p = kind_of st0 p \/ kind_of cur p = Absent) ->
+    (kind_of (snd (session csv feat rdata st0 cur ks)) p = kind_of st0 p
+     \/ kind_of (snd (session csv feat rdata st0 cur ks)) p = Absent).
+  Proof.
+    induction ks as [|k ks IH]; intros st0 cur p E; cbn; [exact E|].
+    apply IH. rewrite kind_of_after. destruct (memb p _); [right; reflexivity|].
+    unfold call_state. destruct (k_fresh k); [left; reflexivity | exact E].
+  Qed.
+
+  (* what a call does depends on its own arguments and the directory it is given, not on the calls
+     made before: the outcome of a call on a fresh directory at the end of ANY history is `clear` *)
+  Lemma session_outcomes_app ks : forall st0 cur k,
+    fst (session csv feat rdata st0 cur (ks ++ [k])%list) =
+    (fst (session csv feat rdata st0 cur ks) ++
+     [run_call csv feat rdata st0 (snd (session csv feat rdata st0 cur ks)) k])%list.
+  Proof.
+    induction ks as [|k0 ks IH]; intros st0 cur k; cbn; [reflexivity|].
+    rewrite IH. reflexivity.
+  Qed.
+
+  Lemma fresh_call_history_independent ks st0 cur k :
+    k_fresh k = true ->
+    fst (session csv feat rdata st0 cur (ks ++ [k])%list) =
+    (fst (session csv feat rdata st0 cur ks) ++ [clear csv feat rdata (k_only k) (k_skip k) st0 (consent_of k)])%list.
+  Proof. intros F. rewrite session_outcomes_app. unfold run_call, call_state. rewrite F. reflexivity. Qed.
+
+  (* refused calls only: the directory at the end of the session is the one it started from *)
+  Lemma session_without_consent ks : forall st0 cur,
+    Forall (fun k => consent_of k = false /\ k_fresh k = false) ks ->
+    snd (session csv feat rdata st0 cur ks) = cur.
+  Proof.
+    induction ks as [|k ks IH]; intros st0 cur F; cbn; [reflexivity|].
+    inversion F as [|? ? [C R] F']; subst. rewrite IH by assumption.
+    unfold run_call, call_state. rewrite C, R. apply no_consent_state_unchanged.
+  Qed.
+
+  (* a path whose parts no call of the session selects keeps its kind through the whole session *)
+  Lemma session_kept_part_survives ks : forall st0 cur p,
+    p <> rdata ->
+    (forall e, In e (csv ++ feat) -> tpath e = p ->
+       Forall (fun k => selected (k_only k) (k_skip k) (tname e) = false) ks) ->
+    kind_of cur p = kind_of st0 p ->
+    kind_of (snd (session csv feat rdata st0 cur ks)) p = kind_of st0 p.
+  Proof.
+    induction ks as [|k ks IH]; intros st0 cur p NR H E; cbn; [exact E|].
+    apply IH; [exact NR| |].
+    - intros e I EP. specialize (H e I EP). inversion H; assumption.
+    - rewrite kind_of_after. unfold run_call.
+      destruct (memb p (deleted _)) eqn:M.
+      + exfalso. apply memb_In in M. destruct (consent_of k).
+        * apply deletes_exactly in M. destruct M as [_ [[-> _]|[_ [e [I [EP S]]]]]]; [congruence|].
+          specialize (H e I EP). inversion H as [|? ? S' _]; subst. congruence.
+        * rewrite no_consent_no_change in M. destruct M.
+      + unfold call_state. destruct (k_fresh k); [reflexivity|exact E].
+  Qed.
+
+  (* records_data survives a session in which every call keeps some part that stores record files *)
+  Lemma session_records_data_survives ks : forall st0 cur,
+    Forall (fun k => exists e, In e (csv ++ feat) /\ tfile e = true /\
+                               selected (k_only k) (k_skip k) (tname e) = false) ks ->
+    kind_of cur rdata = kind_of st0 rdata ->
+    kind_of (snd (session csv feat rdata st0 cur ks)) rdata = kind_of st0 rdata.
+  Proof.
+    induction ks as [|k ks IH]; intros st0 cur H E; cbn; [exact E|].
+    inversion H as [|? ? HK H']; subst.
+    apply IH; [exact H'|].
+    rewrite kind_of_after. unfold run_call.
+    destruct (memb rdata (deleted _)) eqn:M.
+    - exfalso. apply memb_In in M. destruct (consent_of k).
+      + apply deletes_exactly in M. destruct M as [_ [[_ N]|[N _]]]; [apply N; exact HK | congruence].
+      + rewrite no_consent_no_change in M. destruct M.
+    - unfold call_state. destruct (k_fresh k); [reflexivity|exact E].
+  Qed.
+
   (* the legacy (pre-fix) behaviour did crash: witness in Props/C19.v *)
 End ClearProofs.
